@@ -337,4 +337,20 @@ theorem C01_partial : Statement where
   piece := pieceNM_exact
   grid := C06.grid_breaks_at_turnoffs
 
+/-- the hypotheses of `closed_star_solves` are satisfiable: lifetime law `t = e^{1/m}` (a0 = a1 = 1, a2 = −1), age `e²` (turn-off mass 1/2),
+    a flat bin from 1/4 with unit density and the 0.1-object threshold -/
+example : ∃ (A al l a0 a1 a2 t nmin : ℝ), 0 < a0 ∧ 0 < a1 ∧ a2 < 0 ∧ a0 < t ∧ 0 < l ∧ l < mtoFin a0 a1 a2 t ∧
+    nmin < A * PkCore al 1 l (mtoFin a0 a1 a2 t) ∧ (resolution : ℝ) ≤ PkCore al 1 l (mtoFin a0 a1 a2 t) := by
+  have hm : mtoFin (1:ℝ) 1 (-1) (Real.exp 2) = 1 / 2 := by
+    rw [mtoFin_real]
+    simp only [div_one, Real.log_exp]
+    rw [show (1:ℝ) / (-1) = -1 by norm_num, Real.rpow_neg_one]; norm_num
+  have hP : PkCore (0:ℝ) 1 (1/4) (1/2) = 1 / 4 := by
+    rw [PkCore_real]; norm_num
+  refine ⟨(1:ℝ), (0:ℝ), (1/4 : ℝ), (1:ℝ), (1:ℝ), (-1 : ℝ), Real.exp 2, (1/10 : ℝ), by norm_num, by norm_num, by norm_num, ?_, by norm_num, ?_, ?_, ?_⟩
+  · have := Real.add_one_lt_exp (show (2:ℝ) ≠ 0 by norm_num); linarith
+  · rw [hm]; norm_num
+  · rw [hm, hP]; norm_num
+  · rw [hm, hP, resolution_real]; norm_num
+
 end Model.C01
